@@ -412,10 +412,78 @@ def r5(ctx):
     if w is None or wo is None:
         raise AnalysisError(f"{v.site()}: the validator no longer has the sentinel / no-sentinel arms comparing sorted unique values with a range; "
                             f"a different algorithm cannot be judged dense-or-not by this rule")
-    want_w = [Nc.key(parse_expr(f"np.all(np.unique({a}) == np.concatenate([np.array([-1]), np.arange(np.unique({a}).shape[0] - 1)]))"))]
-    want_wo = [Nc.key(parse_expr(f"np.all(np.unique({a}) == np.arange(np.unique({a}).shape[0]))"))]
-    ok_w = Nc.key(w) in want_w
-    ok_wo = Nc.key(wo) in want_wo
+    sent_val = -1
+    if sent is not None:
+        try:
+            sent_val = int(U(sent))
+        except ValueError:
+            pass
+
+    def int_const(x):
+        t = U(x).replace(" ", "")
+        if t == "CONTROL_SENTINEL_VALUE":
+            return sent_val
+        try:
+            return int(t)
+        except ValueError:
+            return None
+
+    def length_of_unique(x):
+        """True iff x denotes the number of distinct values of the array"""
+        t = U(x).replace(" ", "")
+        u = (f"np.unique({a})", f"np.sort(np.unique({a}))")
+        return any(t in (f"{b_}.shape[0]", f"{b_}.size", f"len({b_})") for b_ in u)
+
+    def range_form(x):
+        """(start, extra) meaning  start, start+1, ..., start + (n_unique + extra) - 1 ; None if not such a run"""
+        if isinstance(x, ast.Call) and call_name(x) == "np.arange" and len(x.args) == 1 and not [k for k in x.keywords if k.arg != "dtype"]:
+            L = x.args[0]
+            if length_of_unique(L):
+                return (0, 0)
+            if isinstance(L, ast.BinOp) and isinstance(L.op, (ast.Sub, ast.Add)) and length_of_unique(L.left) and int_const(L.right) is not None:
+                return (0, -int_const(L.right) if isinstance(L.op, ast.Sub) else int_const(L.right))
+            return None
+        if isinstance(x, ast.BinOp) and isinstance(x.op, (ast.Add, ast.Sub)):
+            l, r = x.left, x.right
+            if int_const(r) is not None and range_form(l) is not None:
+                s0, e0 = range_form(l)
+                return (s0 + (int_const(r) if isinstance(x.op, ast.Add) else -int_const(r)), e0)
+            if isinstance(x.op, ast.Add) and int_const(l) is not None and range_form(r) is not None:
+                s0, e0 = range_form(r)
+                return (s0 + int_const(l), e0)
+            return None
+        if isinstance(x, ast.Call) and call_name(x) in ("np.concatenate", "np.hstack") and x.args and isinstance(x.args[0], (ast.List, ast.Tuple)) and len(x.args[0].elts) == 2:
+            head, tail = x.args[0].elts
+            hv = head
+            if isinstance(hv, ast.Call) and call_name(hv) in ("np.array", "np.asarray") and hv.args:
+                hv = hv.args[0]
+            if isinstance(hv, (ast.List, ast.Tuple)) and len(hv.elts) == 1 and int_const(hv.elts[0]) is not None and range_form(tail) is not None:
+                s0, e0 = range_form(tail)
+                if s0 == int_const(hv.elts[0]) + 1:
+                    return (s0 - 1, e0 + 1)
+        return None
+
+    def arm_ok(ret, start):
+        """ret is np.all(unique(arr) == run starting at `start` of exactly n_unique elements)"""
+        r = ret
+        if isinstance(r, ast.Call) and call_name(r) in ("np.all", "bool", "all") and len(r.args) == 1:
+            r = r.args[0]
+            if isinstance(r, ast.Call) and call_name(r) in ("np.all",) and len(r.args) == 1:
+                r = r.args[0]
+        elif isinstance(r, ast.Call) and isinstance(r.func, ast.Attribute) and r.func.attr == "all" and not r.args:
+            r = r.func.value
+        elif isinstance(r, ast.Call) and call_name(r) == "np.array_equal" and len(r.args) == 2:
+            r = ast.Compare(left=r.args[0], ops=[ast.Eq()], comparators=[r.args[1]])
+        else:
+            return False
+        if not (isinstance(r, ast.Compare) and len(r.ops) == 1 and isinstance(r.ops[0], ast.Eq)):
+            return False
+        sides = [r.left, r.comparators[0]]
+        uniq = [x for x in sides if U(x).replace(" ", "") in (f"np.unique({a})", f"np.sort(np.unique({a}))")]
+        runs = [range_form(x) for x in sides if x not in uniq]
+        return len(uniq) == 1 and len(runs) == 1 and runs[0] == (start, 0)
+    ok_w = arm_ok(w, sent_val)
+    ok_wo = arm_ok(wo, 0)
     ok_dt = "dtype" in arms and U(arms["dtype"]) == "False"
     if not (ok_w and ok_wo) and not any("unique" in U(x) for x in (w, wo)):
         raise AnalysisError(f"{v.site()}: the validator's arms do not compare np.unique(arr) with a range; a different algorithm cannot be judged by this rule")
@@ -436,15 +504,108 @@ def r6(ctx):
     da = kw.get("treatment_dose_arr", enc[0].args[1] if len(enc[0].args) > 1 else None)
     ctx.need(na is not None and da is not None, "Screen.__init__: encoder is not given name and dose vectors")
 
-    def stack_form(e, src):
-        """kind of column-major flattening of `src` that e denotes, or None"""
-        t = U(inline(e, env)).replace(" ", "")
-        forms = {f"np.concatenate(list({src}.T))": "concat-T", f"np.concatenate({src}.T)": "concat-T", f"np.concatenate([colforcolin{src}.T])": "concat-T",
-                 f"{src}.T.ravel()": "ravel-T", f"{src}.T.flatten()": "ravel-T", f"{src}.flatten(order='F')": "ravel-T", f"{src}.ravel(order='F')": "ravel-T",
-                 f"np.concatenate([{src}[:,i]foriinrange({src}.shape[1])])": "concat-T",
-                 f"np.concatenate([{src}[:,i]foriinrange(treatment_arity)])": "concat-T"}
-        return forms.get(t)
-    # (a) pair-list idiom
+    from engine.astutil import inline_calls
+    ARITY = (f"{tn}.shape[1]", f"{td}.shape[1]", "treatment_arity", f"{tn}.shape[-1]", f"{td}.shape[-1]")
+
+    def T(x):
+        return U(x).replace(" ", "")
+
+    def full(e):
+        return inline_calls(inline(e, env), ctx.R, init.mod, scope=init.node)
+
+    def mat_layout(e, src):
+        """'N' if e denotes the (n, arity) matrix src itself, 'T' if its transpose; None otherwise"""
+        if T(e) == src:
+            return "N"
+        if isinstance(e, ast.Attribute) and e.attr == "T":
+            m = mat_layout(e.value, src)
+            return {"N": "T", "T": "N"}.get(m)
+        if isinstance(e, ast.Call) and call_name(e) in ("np.transpose",) and len(e.args) == 1:
+            m = mat_layout(e.args[0], src)
+            return {"N": "T", "T": "N"}.get(m)
+        if isinstance(e, ast.Call) and isinstance(e.func, ast.Attribute) and e.func.attr in ("transpose",) and not e.args:
+            m = mat_layout(e.func.value, src)
+            return {"N": "T", "T": "N"}.get(m)
+        if isinstance(e, ast.Call) and isinstance(e.func, ast.Attribute) and e.func.attr in ("copy",):
+            return mat_layout(e.func.value, src)
+        return None
+
+    def flat_order(e, src):
+        """'col' if e lists src column by column (column 0 first), 'row' if row by row; None if not recognised"""
+        e = full(e)
+        # M.ravel() / M.flatten() / M.reshape(-1) [order='F']
+        if isinstance(e, ast.Call) and isinstance(e.func, ast.Attribute) and e.func.attr in ("ravel", "flatten", "reshape"):
+            if e.func.attr == "reshape" and [T(x) for x in e.args] not in (["-1"], ["(-1,)"]):
+                return None
+            m = mat_layout(e.func.value, src)
+            order = kwargs(e).get("order")
+            f_order = order is not None and T(order) in ("'F'", '"F"')
+            if m is None:
+                return None
+            rowwise = (m == "N") != f_order        # C-order of N or F-order of T lists rows of src
+            return "row" if rowwise else "col"
+        # np.concatenate(<sequence of rows of M>)
+        if isinstance(e, ast.Call) and call_name(e) in ("np.concatenate", "np.hstack") and e.args:
+            seq = e.args[0]
+            if isinstance(seq, ast.Call) and call_name(seq) in ("list", "tuple") and len(seq.args) == 1:
+                seq = seq.args[0]
+            m = mat_layout(seq, src)
+            if m is not None:
+                return "row" if m == "N" else "col"
+            if isinstance(seq, (ast.ListComp, ast.GeneratorExp)) and len(seq.generators) == 1 and not seq.generators[0].ifs and isinstance(seq.generators[0].target, ast.Name):
+                g = seq.generators[0]
+                v = g.target.id
+                m = mat_layout(g.iter, src)
+                if m is not None and T(seq.elt) == v:
+                    return "row" if m == "N" else "col"
+                if T(g.iter) in [f"range({k})" for k in ARITY] and T(seq.elt) == f"{src}[:,{v}]":
+                    return "col"
+                if T(g.iter) in (f"range({src}.shape[0])", f"range(len({src}))") and T(seq.elt) in (f"{src}[{v},:]", f"{src}[{v}]"):
+                    return "row"
+        return None
+
+    def unflat_order(e, v):
+        """which flattening order of an (n, arity) matrix the expression e (over the flat vector v) inverts: 'col' / 'row'"""
+        e = full(e)
+
+        def arity(x):
+            return T(x) in ARITY
+
+        def mat(x):
+            """'A' : x is the (arity, n) matrix whose rows are the consecutive blocks of v ; 'N' : its transpose (n, arity);
+               'R' : the (n, arity) row-major reshape of v ; 'RT' its transpose"""
+            if isinstance(x, ast.Attribute) and x.attr == "T":
+                return {"A": "N", "N": "A", "R": "RT", "RT": "R"}.get(mat(x.value))
+            if isinstance(x, ast.Call) and isinstance(x.func, ast.Attribute) and x.func.attr == "copy":
+                return mat(x.func.value)
+            if isinstance(x, ast.Call) and call_name(x) in ("np.vstack", "np.stack", "np.array", "np.row_stack", "np.column_stack") and x.args:
+                inner = x.args[0]
+                if isinstance(inner, ast.Call) and call_name(inner) in ("np.split", "np.array_split") and len(inner.args) == 2 and T(inner.args[0]) == v and arity(inner.args[1]):
+                    ax = kwargs(x).get("axis")
+                    cols = call_name(x) == "np.column_stack" or (ax is not None and T(ax) in ("1", "-1"))
+                    return "N" if cols else "A"
+                return None
+            if isinstance(x, ast.Call) and isinstance(x.func, ast.Attribute) and x.func.attr == "reshape" and T(x.func.value) == v:
+                dims = x.args[0].elts if len(x.args) == 1 and isinstance(x.args[0], ast.Tuple) else x.args
+                order = kwargs(x).get("order")
+                f_order = order is not None and T(order) in ("'F'", '"F"')
+                if len(dims) != 2:
+                    return None
+                d0, d1 = dims
+                if arity(d0) and not arity(d1):
+                    return "RT?" if f_order else "A"          # (arity, n) C-order: rows are the blocks
+                if arity(d1) and not arity(d0):
+                    return "N" if f_order else "R"            # (n, arity): F-order fills column blocks, C-order interleaves
+                return None
+            return None
+        m = mat(e)
+        if m == "N":
+            return "col"
+        if m == "R":
+            return "row"
+        return None
+    fn_, fd_ = flat_order(na, tn), flat_order(da, td)
+    # (a) pair-list idiom of the original code
     acc = None
     for l in [n for n in walk_own(init.node) if isinstance(n, ast.For) and U(n.iter).startswith("range(")]:
         app = [c for c in calls(l, tail="append")]
@@ -455,36 +616,25 @@ def r6(ctx):
                 acc = U(app[0].func.value)
     nv = U(inline(na, env)).replace(" ", "")
     dv = U(inline(da, env)).replace(" ", "")
-    verdict = None
     if acc and nv == f"np.concatenate([x[0]forxin{acc}])" and dv == f"np.concatenate([x[1]forxin{acc}])":
-        verdict = True
-    else:
-        fn_, fd_ = stack_form(na, tn), stack_form(da, td)
-        if fn_ and fd_:
-            verdict = fn_ == fd_ or {fn_, fd_} <= {"concat-T", "ravel-T"}
-        elif stack_form(na, td) or stack_form(da, tn) or (acc and (f"forxin{acc}" in nv or f"forxin{acc}" in dv)):
-            verdict = False          # recognisable stacking, but names/doses taken from the wrong source or different orders
-    if verdict is None:
-        raise AnalysisError(f"Screen.__init__: the way names (`{U(inline(na, env))[:60]}`) and doses are flattened column by column is not a recognised idiom")
-    ctx.check("R6", f"{init.site()}::column-stacking", verdict, "names and doses are flattened column by column in the same order (column i of names with column i of doses)",
-              "treatment names and doses are not stacked over the same column order (names of column i paired with doses of column i)")
+        fn_ = fd_ = "col"
+    crossed = flat_order(na, td) is not None or flat_order(da, tn) is not None or (acc and (f"forxin{acc}" in nv or f"forxin{acc}" in dv) and not (fn_ and fd_))
+    if (fn_ is None or fd_ is None) and not crossed:
+        raise AnalysisError(f"Screen.__init__: the way names (`{U(inline(na, env))[:60]}`) and doses are flattened is not a recognised idiom")
+    ctx.check("R6", f"{init.site()}::column-stacking", fn_ is not None and fn_ == fd_, "names and doses are flattened in the same order (entry k of names with entry k of doses)",
+              "treatment names and doses are not flattened over the same order / from their own matrices (names of column i paired with doses of column i)")
     st = [n for n in walk_own(init.node) if isinstance(n, ast.Assign) and U(n.targets[0]) == "self._treatment_ids"]
     ctx.need(len(st) == 1, "Screen.__init__: self._treatment_ids store not found")
-    res = [U(t) for n in walk_own(init.node) if isinstance(n, ast.Assign) and n.value is enc[0] and isinstance(n.targets[0], ast.Tuple) for t in n.targets[0].elts]
+    res = []
+    for n in walk_own(init.node):
+        if isinstance(n, ast.Assign) and n.value is enc[0] and isinstance(n.targets[0], ast.Tuple):
+            res = [U(t.value if isinstance(t, ast.Starred) else t) for t in n.targets[0].elts]
     ctx.need(res, "Screen.__init__: encoder result unpacking not found")
-    v = U(inline(st[0].value, {k: x for k, x in env.items() if k != res[0]})).replace(" ", "").replace("\n", "")
-    ks = (f"{tn}.shape[1]", "treatment_arity", f"{td}.shape[1]")
-    good = set()
-    for k in ks:
-        good |= {f"np.vstack(np.split({res[0]},{k})).T", f"np.stack(np.split({res[0]},{k}),axis=0).T", f"np.stack(np.split({res[0]},{k})).T", f"np.stack(np.split({res[0]},{k}),axis=1)",
-                 f"np.column_stack(np.split({res[0]},{k}))", f"{res[0]}.reshape({k},-1).T", f"{res[0]}.reshape(({k},-1)).T", f"{res[0]}.reshape(-1,{k},order='F')"}
-    wrong = set()
-    for k in ks:
-        wrong |= {f"{res[0]}.reshape(-1,{k})", f"{res[0]}.reshape((-1,{k}))", f"np.vstack(np.split({res[0]},{k}))", f"np.stack(np.split({res[0]},{k}),axis=0)"}
-    if v not in good and v not in wrong:
+    uo = unflat_order(inline(st[0].value, {k: x for k, x in env.items() if k != res[0]}), res[0])
+    if uo is None:
         raise AnalysisError(f"Screen.__init__: the encoded vector is unstacked by `{U(st[0].value)[:70]}`, not a recognised idiom")
-    ctx.check("R6", f"{init.site()}::split-and-transpose", v in good, "ids = the arity column blocks of the encoded vector side by side (inverse of the column stacking)",
-              f"the encoded vector is unstacked by `{U(st[0].value)}`, which is not the inverse of the column-by-column flattening (row-major reshape interleaves treatments)")
+    ctx.check("R6", f"{init.site()}::split-and-transpose", fn_ is not None and uo == fn_, "the id matrix is rebuilt by the inverse of the flattening used for names and doses",
+              f"the encoded vector is unstacked by `{U(st[0].value)}` ({uo}-major), which is not the inverse of the {fn_}-major flattening (treatments of different rows are interleaved)")
 
 
 def r7(ctx):
